@@ -316,6 +316,59 @@ func runC06(c *Ctx) {
 	if nGo == 0 {
 		c.Pass("no-goroutines", 0, "no goroutine is started under block execution")
 	}
+
+	// ------------------------------------------------------------ N5
+	c.Rule("C06.N5", "ALWAYS-WITH", "a lazily decoded value kept beside its encoded source stays coherent with it: every function that stores the encoded source (Validator.Ext.Data) also stores the decoded cache (Ext.extV1.LastActive) on the same paths, so a live validator object and one freshly loaded from the trie answer LastActive() alike")
+	c.Min(2)
+	type lazyCache struct{ pkg, ownerSrc, src, ownerCache, cache, getterRecv, getter string }
+	for _, lc := range []lazyCache{{"core/state", "Extension", "Data", "ExtV1", "LastActive", "Validator", "LastActive"}} {
+		srcF := w.Field(lc.pkg, lc.ownerSrc, lc.src)
+		cacheF := w.Field(lc.pkg, lc.ownerCache, lc.cache)
+		// the getter really is lazy: it stores the cache under a test of the cache itself
+		g := w.Fn(lc.pkg, lc.getterRecv, lc.getter)
+		c.sawFunc(fname(g))
+		lazy := false
+		for _, fw := range fieldWrites(g) {
+			if fw.Field != cacheF {
+				continue
+			}
+			for _, a := range atomsOf(factsAtInstr(fw.Instr)) {
+				if f, _ := loadedField(stripConv(a.X)); f == cacheF {
+					lazy = true
+				}
+			}
+		}
+		c.sites++
+		c.Check(fname(g)+"#lazy-decode", g.Pos(), lazy, ifelse(lazy, "fills "+lc.cache+" from "+lc.src+" only while the cache is unset", "the getter no longer has the lazy-decode shape this rule was written for: re-confirm the cache discipline"))
+		nSrc := 0
+		for _, fn := range w.FuncsIn(lc.pkg) {
+			if strings.HasSuffix(w.fileOf(fn.Pos()), "_test.go") {
+				continue
+			}
+			var srcW, cacheW []ssa.Instruction
+			for _, fw := range fieldWrites(fn) {
+				if fw.Kind != "store" {
+					continue
+				}
+				if fw.Field == srcF {
+					srcW = append(srcW, fw.Instr)
+				}
+				if fw.Field == cacheF {
+					cacheW = append(cacheW, fw.Instr)
+				}
+			}
+			for i, sw := range srcW {
+				nSrc++
+				c.sites++
+				c.sawFunc(fname(fn))
+				ok := len(cacheW) > 0 && alwaysWith(sw, cacheW)
+				c.Check(fmt.Sprintf("%s#%s-store@%d-updates-%s", fname(fn), lc.src, i, lc.cache), sw.Pos(), ok, ifelse(ok, "the decoded cache is stored on the same paths", "the encoded "+lc.src+" is replaced without the decoded "+lc.cache+": an object whose cache was already filled keeps answering the old value while a freshly loaded one decodes the new — the outcome of a block depends on which validator objects were alive"))
+			}
+		}
+		if nSrc == 0 {
+			c.Undecided(lc.pkg+"."+lc.ownerSrc+"."+lc.src+"#writers", 0, "no store of the encoded source found")
+		}
+	}
 }
 
 func chainMakerFuncs(w *World) []*ssa.Function {
